@@ -411,6 +411,7 @@ Lemma n_pos : 1 <= n.
 Proof. nia. Qed.
 
 Ltac cells_ok :=
+  unfold cells_A, cells_A_with, cells_B, cells_C;
   repeat (apply Forall_cons; [intros i j Hi Hj|]); [..|apply Forall_nil].
 
 Lemma gen_A_rows_ok : rows_ok (n * 4 + 2) (g_trans (gen_A K L W moves rewards loose ptb)).
